@@ -526,7 +526,8 @@ REGKEYS = ["HKEY_LOCAL_MACHINE\\Software", "hkey_local_machine\\software", "HKLM
            "ABC", "abc", "AbC", "ÀÉ×Þ", "àé×þ", "Run%", "RUN%", "\\D+", "\\d+", "\\W", "\\w", "Path_1", "", "x y"]
 STRINGS = ["", "a", "foo", "Foo", "foo.exe", "it's", "back\\slash", "été", "中文", "\U0001f600", "a b", "%ab_",
            "^f.o$", "1", "1.0", "true", "AND", "-", "x" * 40, "\t", "q\"q"]
-HEXES = ["00", "ff", "FF", "Ff", "abcd", "ABCD", "AbCd", "0102", "010203", "deadBEEF", "DEADbeef", "7f"]
+HEXES = ["00", "ff", "FF", "Ff", "abcd", "ABCD", "AbCd", "0102", "010203", "deadBEEF", "DEADbeef", "7f",
+         "", "0000", "00ff", "0000ff", "ff00", "000102", "00abcd", "007f", "000000"]
 BINS = ["QQ==", "QR==", "QUI=", "QUJD", "qujd", "QUJDRA==", "AAAA", "////", "++++", "AA==", "AAA=", "Zm9v", "Zm9vYg==", "Zm9vYmE="]
 TIMES = ["2014-01-13T07:03:17Z", "2014-01-13T07:03:17.0Z", "2014-01-13T07:03:17.000000Z", "2014-01-13T07:03:17.5Z",
          "2014-01-13T07:03:17.500Z", "2014-01-13T07:03:18Z", "2020-02-29T23:59:59.999999Z", "1970-01-01T00:00:00Z",
@@ -961,7 +962,8 @@ def edit(rng, p):
             if x < 0.75 and k[0] == "str" and ("k", "hashes") not in steps:
                 return replace_at(p, path, ("atom", typ, steps, op, neg, ("str", k[1] + "x"))), "change-const"
             if x < 0.85 and k[0] == "list" and k[1]:
-                return replace_at(p, path, ("atom", typ, steps, op, neg, ("list", k[1][1:]))), "drop-member"
+                i = rng.randrange(len(k[1]))
+                return replace_at(p, path, ("atom", typ, steps, op, neg, ("list", k[1][:i] + k[1][i + 1:]))), "drop-member"
             if x < 0.95 and ("k", "hashes") not in steps:
                 return replace_at(p, path, ("atom", typ, steps + [("k", "zz")], op, neg, k)), "change-path"
         elif t in ("and", "or", "oand", "oor", "ofby") and len(e[1]) >= 2:
@@ -1009,7 +1011,11 @@ def near_duplicates(rng, p):
     if not atoms:
         return []
     strs = [x for x in atoms if x[1][5][0] == "str" and x[1][3] in ("=", "!=", "LIKE", "MATCHES", "<", ">")]
-    path, e = rng.choice(strs) if strs and rng.random() < 0.75 else rng.choice(atoms)
+    hexes = [x for x in atoms if x[1][5][0] in ("hex", "bin") and x[1][3] in ("=", "!=", "<", ">", "<=", ">=")]
+    x = rng.random()
+    lists = [y for y in atoms if y[1][5][0] == "list" and len(y[1][5][1]) >= 2]
+    path, e = rng.choice(hexes) if hexes and x < 0.4 else rng.choice(lists) if lists and x < 0.6 \
+        else rng.choice(strs) if strs and x < 0.9 else rng.choice(atoms)
     _, typ, steps, op, neg, k = e
     alts = []
     if k[0] == "str":
@@ -1031,13 +1037,21 @@ def near_duplicates(rng, p):
     elif k[0] == "list" and len(k[1]) >= 2:
         m = list(k[1])
         alts = [(("list", m), "set"), (("list", m[::-1]), "set-reversed"), (("list", m[1:] + m[:1]), "set-rotated"),
-                (("list", m[1:]), "set-smaller"), (("list", m + m[:1]), "set-repeat")]
+                (("list", m[1:]), "set-smaller"), (("list", m + m[:1]), "set-repeat"),
+                # a subset that is a prefix of the sorted larger set must still compare different
+                (("list", m[:-1]), "set-without-last"), (("list", m[:1]), "set-first-only"), (("list", m[-1:]), "set-last-only"),
+                (("list", sorted(m, key=repr)[:-1]), "set-without-one")]
     else:
         alts = [(k, "as-is"), (respell_prim(rng, k), "respelled"), (respell_prim(rng, respell_prim(rng, k)), "respelled-twice")]
         if k[0] == "hex":
-            alts += [(("hex", k[1].upper()), "upper"), (("hex", k[1].lower()), "lower"), (("hex", k[1] + "00"), "longer")]
+            # the bytes, not a number: leading zero bytes count, and so does the empty constant
+            alts += [(("hex", k[1].upper()), "upper"), (("hex", k[1].lower()), "lower"), (("hex", k[1] + "00"), "longer"),
+                     (("hex", "00" + k[1]), "leading-zero-byte"), (("hex", "0000" + k[1]), "two-leading-zero-bytes"),
+                     (("hex", ""), "empty"), (("hex", "00"), "one-zero-byte"), (("hex", "0000"), "two-zero-bytes")]
         if k[0] == "bin":
-            alts += [(("bin", "QUJD"), "QUJD"), (("bin", "qujd"), "qujd")]
+            alts += [(("bin", "QUJD"), "QUJD"), (("bin", "qujd"), "qujd"),
+                     (("bin", "/w=="), "ff"), (("bin", "AP8="), "00ff"), (("bin", "AAD/"), "0000ff"), (("bin", "/wA="), "ff00"),
+                     (("bin", "AA=="), "00"), (("bin", "AAA="), "0000"), (("bin", "AAAA"), "000000")]
     out = []
     for k2, name in alts:
         if op in ("IN",) and k2[0] != "list":
@@ -1058,7 +1072,8 @@ def flat_node(op, kids):
 
 DEMANDED_RULES = ("c-commute", "c-associate", "c-idempotent", "c-absorb-or", "c-absorb-and", "c-distribute", "set-order",
                   "numeric", "o-commute", "o-associate", "o-idempotent-or", "o-absorb-and", "o-absorb-fby-left",
-                  "o-absorb-fby-right", "o-distribute-and", "o-distribute-fby-right", "o-distribute-fby-left")
+                  "o-absorb-fby-right", "o-distribute-and", "o-distribute-fby-right", "o-distribute-fby-left",
+                  "o-distribute-nested")
 
 
 def rule_instance(rng, name=None):
@@ -1104,6 +1119,25 @@ def rule_instance(rng, name=None):
         if name == "o-absorb-fby-right":
             big = ("ofby", [b, a])
             return name, ("oor", [a, big] if rng.random() < 0.5 else [big, a]), a, a
+        if name == "o-distribute-nested":
+            # two levels: A op1 (B OR (C op2 (D OR E))) with op1, op2 among AND / FOLLOWEDBY (the operand on either
+            # side), against the full expansion or against the expansion of the inner level only
+            def leaf():
+                return ("obs", g.atom(rng.choice(TYPES)))
+            la, lb, lc, ld, le = leaf(), leaf(), leaf(), leaf(), leaf()
+            op1, op2 = rng.choice(["oand", "ofby"]), rng.choice(["oand", "ofby"])
+
+            def mk(op, x, y, left):
+                return (op, [x, y] if left else [y, x])
+            s1, s2 = rng.random() < 0.5, rng.random() < 0.5
+            inner = mk(op2, lc, ("oor", [ld, le]), s2)
+            lhs = mk(op1, la, ("oor", [lb, inner]), s1)
+            inner_exp = [mk(op2, lc, ld, s2), mk(op2, lc, le, s2)]
+            if rng.random() < 0.5:
+                rhs = ("oor", [mk(op1, la, lb, s1)] + [mk(op1, la, t, s1) for t in inner_exp])
+            else:
+                rhs = mk(op1, la, ("oor", [lb] + inner_exp), s1)
+            return name, lhs, rhs, la
         if name == "o-distribute-and":
             return name, ("oand", [a, ("oor", [b, c])]), ("oor", [("oand", [a, b]), ("oand", [a, c])]), a
         if name == "o-distribute-fby-right":
